@@ -233,9 +233,9 @@ def coqchk(prop):
 # ------------------------------------------------------------------------------------------------
 # pipeline: programs -> implementation / model / monitors
 
-SIZES = {"quick": dict(wf=150, fault=114, free=120, known=9),
-         "thorough": dict(wf=7000, fault=5700, free=6000, known=60),
-         "search": dict(wf=2500, fault=1900, free=2500, known=30)}
+SIZES = {"quick": dict(wf=150, fault=114, free=120, known=9, chains=25, chain_exh=3),
+         "thorough": dict(wf=7000, fault=5700, free=6000, known=60, chains=300, chain_exh=6),
+         "search": dict(wf=2500, fault=1900, free=2500, known=30, chains=100, chain_exh=4)}
 
 
 def corpus_programs():
@@ -320,6 +320,8 @@ def pipeline(seed, tier):
     sz = SIZES[tier]
     batch = corpus_programs() if tier != "search" else []
     for p, m in gen.generate(seed, sz["wf"], sz["fault"], sz["free"], sz["known"]):
+        batch.append((ser(p), m))
+    for p, m in gen.gen_chains_random(seed + 1, sz["chains"]) + gen.gen_chains_exhaustive(seed + 2, sz["chain_exh"]):
         batch.append((ser(p), m))
     r.programs = [p for p, _ in batch]
     r.metas = [m for _, m in batch]
